@@ -931,11 +931,18 @@ pub fn rich_case(rng: &mut Rng, max_cmds: usize, sentinels: bool) -> (Case, Vec<
                 while s.cols.is_none() {
                     s = mk(rng);
                 }
-                let fin = match rng.below(6) {
+                // every way a backend may end its reply, the ones written by destructors included (the
+                // writer handed back by finish_one / complete_one dropped or left to the end of the
+                // callback, a row writer dropped or left to the end of the callback)
+                let fin = match rng.below(10) {
                     0 => Final::Completed,
                     1 => Final::Error,
                     2 => Final::SetFinishErr(s),
                     3 if nsets > 0 => Final::NoMore,
+                    4 if nsets > 0 => Final::DropResult,
+                    5 if nsets > 0 => Final::Implicit,
+                    6 => Final::SetDropRow(s),
+                    7 => Final::SetImplicit(s),
                     _ => Final::SetFinish(s),
                 };
                 let (prog, pred) = build_prog(&ss, &fin, bin);
